@@ -640,6 +640,27 @@ def main(ctx):
                 bounds=dict(max_len=LN, alphabet=VN, nperbin="1..len+1", mergelast=[True, False],
                             limits=NLIMITS, engines=["compiled", "python (len < max_len)"]))
 
+    # long inputs for the equal-occupancy bins: N = 150 and 97 values (a fixed scramble of distinct values and one with
+    # ties) x EVERY nperbin 1..N x mergelast x engine: bin numbers computed as (i - 0) * (1/nperbin) instead of
+    # i / nperbin are wrong only for particular (nperbin, position) pairs far beyond the short-input lattice
+    def long_data(N, ties):
+        vals = [((i * 37) % N) * (0.5 if not ties else 1.0) for i in range(N)]
+        if ties:
+            vals = [float(int(v) // 3) for v in vals]
+        return tuple(float(v) for v in vals)
+
+    units_nl = [(N, ties, nper) for (N, ties) in ((150, False), (97, True)) for nper in range(1, N + 1)]
+
+    def expand_nl(u):
+        N, ties, nper = u
+        data = long_data(N, ties)
+        for ml in (True, False):
+            for eng in (True, False):
+                yield (data, None, None, nper, ml, None, None, "hist-more", eng)
+            yield (data, wcyc(N, 1), ycyc(N), nper, ml, None, None, "binner", True)
+
+    ctx.lattice("nperbin-long", units_nl, one_nper, expand=expand_nl, bounds=dict(lengths=[150, 97], nperbin="every value 1..N"))
+
     # -------------------------------------------------- part: two-symbol-long
     LL = ctx.pick(8, 12)
     pairs = [(0.0, 1.0), (0.5, 3.7), (-1.0, 0.30000000000000004), (1.0, 1.0)]
@@ -689,7 +710,10 @@ def main(ctx):
         (("nperbin", 3), ("min", 0.0), ("calc_stats", False)),
         (("binsize", 1.0),),
     )
-    EVENTS = tuple(("dohist", c) for c in CFGS) + (("calc_stats",),)
+    # a request without any datum in its limits is rejected (ValueError); whatever the object reports afterwards
+    # (nothing at all, or the results of the last accepted request) must be right
+    REJECT = (("binsize", 1.0), ("min", 50.0), ("rev", True))
+    EVENTS = tuple(("dohist", c) for c in CFGS) + (("calc_stats",), ("dohist-rejected", REJECT))
     datas = [(0.0, 0.5, 1.0, 2.0, 0.5), (2.0, -1.0, 0.5, 0.5, 3.7, 1.0, 0.0), (1.0,),
              (0.30000000000000004, 0.1, 0.0, 1.5, 1.0)]
     roots = []
@@ -705,16 +729,29 @@ def main(ctx):
         b = stat.Binner(arr, y=yarr, weights=warr)
         cfg = None
         stats_done = False
+        pending = None      # the last accepted request, while a later one was rejected
         for k, ev in enumerate(hist[1:]):
             try:
                 if ev[0] == "dohist":
                     b.dohist(**dict(ev[1]))
                     cfg = dict(ev[1])
                     stats_done = cfg.get("calc_stats", True)
+                    pending = None
+                elif ev[0] == "dohist-rejected":
+                    try:
+                        b.dohist(**dict(ev[1]))
+                        rec.fail(hist, "a request without any datum in its limits was accepted (call %d)" % (k + 1))
+                        return None
+                    except ValueError:
+                        pass
+                    pending, cfg = (cfg if cfg is not None else pending), None
                 elif cfg is None:
                     # nothing to report on yet: "run dohist first" (ValueError) is the documented answer
                     try:
                         b.calc_stats()
+                        if pending is not None and "hist" in b:
+                            cfg = pending          # the object reports on the last accepted request: checked below
+                            stats_done = True
                     except ValueError:
                         pass
                 else:
